@@ -143,7 +143,9 @@ func (e *Engine) AddSingleAssertionConflict(trigger annotation.FullTrigger) {
 	flow := nilFlow{}
 	flow.addNonNilPathNode(producer, consumer)
 
-	position := e.pass.Fset.Position(trigger.Consumer.Expr.Pos())
+	// Like the positions of over-constraint conflicts (see [inference.primitivizer.toPosition]), the
+	// position is not adjusted by `//line` directives.
+	position := e.pass.Fset.PositionFor(trigger.Consumer.Expr.Pos(), false /* adjusted */)
 	// Try to trim the build system prefix (i.e., the current working directory) if present.
 	position.Filename = tokenhelper.RelToCwd(position.Filename)
 	e.conflicts = append(e.conflicts, conflict{
